@@ -534,7 +534,9 @@ def case_img(R):
 def case_adm(R):
     paras = [R.choice(["plain para", "with *em* and `code`", "char refs &#42;not em&#42; &amp; &lt;b&gt;", "a [link](https://e.org)", "two\nlines", "{emphasis}`role`", "&#96;not code&#96; &#91;x&#93;(y)",
                       # inline html inside the body: attributes in every spelling are part of the inner content
-                      'x <a href="" title="">empty values</a> y', 'tick <input type="checkbox" disabled checked> box', 'q <span title="say &quot;hi&quot;" data-x="">s</span>', "<b class=\"\">b</b> <i hidden>i</i>"]) for _ in range(R.randint(0, 2))]
+                      'x <a href="" title="">empty values</a> y', 'tick <input type="checkbox" disabled checked> box', 'q <span title="say &quot;hi&quot;" data-x="">s</span>', "<b class=\"\">b</b> <i hidden>i</i>",
+                      # self-closing tags of elements that are not void (svg, MathML, custom elements): the solidus is part of the source
+                      'icon <x-icon name="a"/> after <b>bold</b>', '<svg width="9"><circle r="8"/><rect width="1"/></svg> pic', "m <math><mi/><mo/></math> n", "br <br/> img <img src=\"i.png\"/> div <div/> tail"]) for _ in range(R.randint(0, 2))]
     bare = R.choice([None, None, "bare **text** &#42;x&#42;", "- item one\n- item two"]) if paras else R.choice(["bare **text**", "- item one\n- item two", "x &#95;y&#95;"])
     title = R.choice([None, "My *title*", "T &amp; U", "&#42;T&#42;", "plain"])
     return {"kind": "adm", "classes": R.choice(["admonition", "admonition note", "warning admonition x-y", "admonition  two  spaces"]), "name": R.choice([None, None, "adm-name", "Name With Caps", "n#1", 'q"uote']), "title": title,
